@@ -557,3 +557,157 @@ Proof.
     + eapply check_defs_in; eauto.
   - rewrite Hs. simpl. eexists; reflexivity.
 Qed.
+
+(* ====================================================================================== *)
+(* shrink_binding_chirality: the collapse table                                            *)
+(* ====================================================================================== *)
+(* i64: producers stay integers (ext), consumers become continuations (cns _Cont);
+   data: chirality kept; codata: chirality flipped (so data producers and codata consumers are
+   prd, data consumers and codata producers are cns). *)
+Theorem shrink_binding_chirality : forall codata v n,
+  shrink_binding codata (mkcb v CPrd CI64) = mkb v Ext I64 /\
+  shrink_binding codata (mkcb v CCns CI64) = mkb v Cns (Decl cont_name) /\
+  (is_codata codata (CDecl n) = false ->
+     shrink_binding codata (mkcb v CPrd (CDecl n)) = mkb v Prd (Decl n) /\
+     shrink_binding codata (mkcb v CCns (CDecl n)) = mkb v Cns (Decl n)) /\
+  (is_codata codata (CDecl n) = true ->
+     shrink_binding codata (mkcb v CPrd (CDecl n)) = mkb v Cns (Decl n) /\
+     shrink_binding codata (mkcb v CCns (CDecl n)) = mkb v Prd (Decl n)).
+Proof.
+  intros. unfold shrink_binding. simpl. split; [reflexivity|]. split; [reflexivity|]. split; intros Hc; rewrite Hc; split; reflexivity.
+Qed.
+
+(* ====================================================================================== *)
+(* critical_pair_order                                                                      *)
+(* ====================================================================================== *)
+(* For <mu a.sp | ty | mu~ x.sc> the result is `create v = {clauses}; next`:
+   - i64:    v = a (the producer's covariable, a continuation), the single clause Ret(x) holds the
+             shrunk CONSUMER body, and `next` - what runs first - is the shrunk PRODUCER body;
+   - data:   v = a, next = the shrunk PRODUCER body (the consumer is suspended in the clauses);
+   - codata: v = x, next = the shrunk CONSUMER body (the producer is suspended in the clauses).
+   In the two declared-type cases every clause re-binds the expanded variable with `let` and
+   continues with the shrunk expanded side (in place, or a call to its lifted definition). *)
+Definition all_let_clauses (cls : list clause) : Prop :=
+  Forall (fun c => exists v t tag next, cl_body c = Let v t tag (cl_ctx c) next /\ tag = cl_xtor c) cls.
+Lemma critical_clauses_lets : forall codata ve tty se xs st cls st',
+  critical_clauses codata ve tty se xs st = (cls, st') -> all_let_clauses cls.
+Proof.
+  induction xs as [|[xt args] r IH]; intros st cls st' H; simpl in H.
+  - inv H. constructor.
+  - destruct (fresh_env _ _) as [env sta].
+    destruct (critical_clauses _ _ _ _ r _) as [r' stc] eqn:Hr. inv H.
+    constructor; [|eapply IH; eauto]. simpl. repeat eexists.
+Qed.
+
+Theorem critical_pair_order : forall rec E vp sp vc sc ty st s st',
+  shrink_critical_pairs rec E vp sp vc sc ty st = SOk (s, st') ->
+  match ty with
+  | CI64 =>
+      exists body next st1,
+        rec sc st = SOk (body, st1) /\ rec sp st1 = SOk (next, st') /\
+        s = Create vp (Decl cont_name) None [(ret_name, [mkb vc Ext I64], body)] next
+  | CDecl n =>
+      exists cls next st2,
+        all_let_clauses cls /\
+        if is_codata (e_codata E) ty
+        then rec sc st2 = SOk (next, st') /\ s = Create vc (Decl n) None cls next     (* consumer first *)
+        else rec sp st2 = SOk (next, st') /\ s = Create vp (Decl n) None cls next     (* producer first *)
+  end.
+Proof.
+  intros rec E vp sp vc sc ty st s st' H. unfold shrink_critical_pairs in H. destruct ty as [|n].
+  - destruct (rec sc st) as [[body st1]|] eqn:H1; [|discriminate]. cbn [sbind] in H.
+    destruct (rec sp st1) as [[next st2]|] eqn:H2; [|discriminate]. cbn [sbind] in H. inv H.
+    repeat eexists; eauto.
+  - destruct (xtors_of E (CDecl n) n) as [xs|]; [|discriminate]. cbn [sbind] in H.
+    destruct (is_codata (e_codata E) (CDecl n)); cbv beta iota in H.
+    + destruct (if (_ || _)%bool then _ else _) as [[se st1]|]; [|discriminate]. cbn [sbind] in H.
+      destruct (critical_clauses _ _ _ _ _ _) as [cls st2] eqn:Hc.
+      destruct (rec sc st2) as [[next st3]|] eqn:H2; [|discriminate]. cbn [sbind] in H. inv H.
+      exists cls, next, st2. split; [eapply critical_clauses_lets; eauto | split; auto].
+    + destruct (if (_ || _)%bool then _ else _) as [[se st1]|]; [|discriminate]. cbn [sbind] in H.
+      destruct (critical_clauses _ _ _ _ _ _) as [cls st2] eqn:Hc.
+      destruct (rec sp st2) as [[next st3]|] eqn:H2; [|discriminate]. cbn [sbind] in H. inv H.
+      exists cls, next, st2. split; [eapply critical_clauses_lets; eauto | split; auto].
+Qed.
+
+(* ====================================================================================== *)
+(* known_cut_selects                                                                        *)
+(* ====================================================================================== *)
+Lemma clauses_match_find : forall side n cls xs x sg,
+  clauses_match side n cls xs = None -> find (fun s => cident_eqb (cxname s) x) xs = Some sg ->
+  exists cl, find (fun c => cident_eqb (clause_xtor c) x) cls = Some cl /\
+             clause_xtor cl = x /\ fparams_ok (clause_ctx cl) (cxargs sg) = true.
+Proof.
+  induction cls as [|[c y ctx b] r IH]; intros xs x sg Hm Hf; destruct xs as [|s xr]; simpl in *; try discriminate.
+  break_checks. apply cident_eqb_eq in Hm1. subst y.
+  destruct (cident_eqb (cxname s) x) eqn:Hx.
+  - inv Hf. eexists; repeat split; eauto. now apply cident_eqb_eq.
+  - eapply IH; eauto.
+Qed.
+Lemma fparams_ok_length : forall ps sg, fparams_ok ps sg = true -> List.length ps = List.length sg.
+Proof.
+  induction ps as [|a r IH]; destruct sg as [|s sr]; simpl; intros H; try discriminate; [reflexivity|].
+  apply andb_prop in H as [_ H]. f_equal. now apply IH.
+Qed.
+Lemma fargs_ok_length : forall what G args sg, fargs_ok what G args sg = None -> List.length args = List.length sg.
+Proof.
+  induction args as [|a r IH]; destruct sg as [|s sr]; simpl; intros H; try discriminate; [reflexivity|].
+  break_checks. f_equal. now apply IH.
+Qed.
+
+(* A cut of a known constructor against a case continues with the body of the FIRST clause for
+   that constructor, its parameters replaced by the arguments, zipped in order; by typing the
+   clause exists and has as many parameters as there are arguments. *)
+Theorem known_cut_selects_ctor : forall data codata defs G rec E c1 x args t1 ty c2 cls t2 st,
+  check_term data codata defs G CPrd ty (FsXtor c1 x args t1) = None ->
+  check_term data codata defs G CCns ty (FsXCase c2 cls t2) = None ->
+  exists cl,
+    find (fun c => cident_eqb (clause_xtor c) x) cls = Some cl /\ clause_xtor cl = x /\
+    List.length (clause_ctx cl) = List.length args /\
+    shrink_cut rec E (FsXtor c1 x args t1) ty (FsXCase c2 cls t2) st
+    = rec (subst_stmt (combine (cids (clause_ctx cl)) (cvars args)) (clause_body cl)) st.
+Proof.
+  intros data codata defs G rec E c1 x args t1 ty c2 cls t2 st Hp Hk.
+  rewrite check_term_xcase_eq in Hk. cbn in Hp. break_checks.
+  destruct ty as [|n]; [discriminate|]. refold_find n.
+  destruct (find_decl data n) as [d|] eqn:Hd; [|discriminate].
+  destruct (find_cxtor d x) as [sg|] eqn:Hx; [|discriminate]. break_checks.
+  edestruct clauses_match_find as [cl [Hf [Hn Hps]]]; [eassumption | exact Hx |].
+  exists cl. repeat split; auto.
+  - rewrite (fparams_ok_length _ _ Hps). symmetry. eapply fargs_ok_length; eauto.
+  - simpl. unfold shrink_known_cuts. now rewrite Hf.
+Qed.
+(* ... and dually a cocase against a known destructor *)
+Theorem known_cut_selects_dtor : forall data codata defs G rec E c1 cls t1 ty c2 x args t2 st,
+  check_term data codata defs G CPrd ty (FsXCase c1 cls t1) = None ->
+  check_term data codata defs G CCns ty (FsXtor c2 x args t2) = None ->
+  exists cl,
+    find (fun c => cident_eqb (clause_xtor c) x) cls = Some cl /\ clause_xtor cl = x /\
+    List.length (clause_ctx cl) = List.length args /\
+    shrink_cut rec E (FsXCase c1 cls t1) ty (FsXtor c2 x args t2) st
+    = rec (subst_stmt (combine (cids (clause_ctx cl)) (cvars args)) (clause_body cl)) st.
+Proof.
+  intros data codata defs G rec E c1 cls t1 ty c2 x args t2 st Hp Hk.
+  rewrite check_term_xcase_eq in Hp. cbn in Hk. break_checks.
+  destruct ty as [|n]; [discriminate|]. refold_find n.
+  destruct (find_decl codata n) as [d|] eqn:Hd; [|discriminate].
+  destruct (find_cxtor d x) as [sg|] eqn:Hx; [|discriminate]. break_checks.
+  edestruct clauses_match_find as [cl [Hf [Hn Hps]]]; [eassumption | exact Hx |].
+  exists cl. repeat split; auto.
+  - rewrite (fparams_ok_length _ _ Hps). symmetry. eapply fargs_ok_length; eauto.
+  - simpl. unfold shrink_known_cuts. now rewrite Hf.
+Qed.
+
+(* what the zipped substitution does: the i-th parameter becomes the i-th argument *)
+Lemma subst_combine_nth : forall ids args i nm d,
+  NoDup ids -> List.length ids = List.length args -> i < List.length ids ->
+  subst_ident (combine ids args) (nm, nth i ids 0%N) = nth i args d.
+Proof.
+  induction ids as [|a r IH]; intros args i nm d Hnd Hlen Hi; simpl in Hi; [lia|].
+  destruct args as [|b br]; [discriminate|]. inv Hnd. simpl in Hlen.
+  destruct i as [|i]; simpl.
+  - unfold cid_id. simpl. now rewrite N.eqb_refl.
+  - unfold cid_id. simpl. destruct (N.eqb a (nth i r 0%N)) eqn:He.
+    + apply N.eqb_eq in He. exfalso. apply H1. rewrite He. apply nth_In. lia.
+    + apply IH; auto; lia.
+Qed.
